@@ -61,10 +61,15 @@ man = {
     "not_applicable": na,
     "notes": "See DESIGN.md. known findings: /verif/known_findings.jsonl. Seeded breaking changes: /verif/seeded/.",
 }
-json.dump(man, open(os.path.join(V, "MANIFEST.json"), "w"), indent=1)
+LEVELS = {"exploration", "fault_enumeration", "model_checking", "proof", "translation_validation", "other"}
+for c in checks:
+    if c["level_claimed"]["category"] not in LEVELS:
+        sys.exit("check %s: category %r is not a schema level" % (c["property_id"], c["level_claimed"]["category"]))
 try:
     import jsonschema
-    jsonschema.validate(man, json.load(open("/root/.vp/MANIFEST.schema.json")))
-    print("MANIFEST.json valid: %d checks, %d not_applicable" % (len(checks), len(na)))
+    jsonschema.validate(man, json.load(open("/root/.vp/MANIFEST.schema.json")))   # validate BEFORE writing
+    note = "valid"
 except ImportError:
-    print("jsonschema not available; written without validation")
+    note = "jsonschema not available; categories checked only"
+json.dump(man, open(os.path.join(V, "MANIFEST.json"), "w"), indent=1)
+print("MANIFEST.json %s: %d checks, %d not_applicable" % (note, len(checks), len(na)))
